@@ -6,19 +6,24 @@ import numpy as np
 from common import *
 
 ID = 'C14'
-COQ_FILES = ['Base/Mat.v', 'Base/SumQ.v', 'Base/ListX.v', 'Model/Partition.v', 'Model/PartitionReal.v', 'Proofs/Partition.v',
-             'Proofs/PartitionJoint.v', 'Proofs/PartitionVI.v', 'Properties/C14.v']
-THEOREMS = ['C14_relabel_injective_invariant', 'C14_relabel_canonical', 'C14_injective_same_part',
+COQ_FILES = ['Base/Mat.v', 'Base/SumQ.v', 'Base/ListX.v', 'Model/Partition.v', 'Model/PartitionReal.v', 'Model/PartitionDG.v',
+             'Proofs/Partition.v', 'Proofs/PartitionJoint.v', 'Proofs/PartitionVI.v', 'Proofs/PartitionDG.v',
+             'Proofs/PartitionGW.v', 'Properties/C14.v']
+THEOREMS = ['C14_relabel_injective_invariant', 'C14_relabel_canonical', 'C14_relabel_onto', 'C14_injective_same_part',
             'C14_participation_coef_partition_only', 'C14_participation_coef_formula',
             'C14_participation_coef_sign_partition_only', 'C14_module_degree_zscore_partition_only',
             'C14_module_degree_zscore_invariant', 'C14_modularity_und_partition_only',
             'C14_modularity_dir_partition_only', 'C14_modularity_und_sign_partition_only',
             'C14_agreement_counts', 'C14_agreement_partition_only', 'C14_partition_distance_symmetric',
             'C14_partition_distance_partition_only', 'C14_partition_distance_same', 'C14_VIn_nonneg',
-            'C14_VIn_zero_same', 'C14_MIn_one_same', 'C14_partition_distance_exactly_when', 'C14_VIn_range_any_log', 'C14_VIn_range', 'C14_ci2ls_ls2ci_inverse',
-            'C14_ci2ls_blocks']
+            'C14_VIn_zero_same', 'C14_MIn_one_same', 'C14_partition_distance_exactly_when', 'C14_VIn_range_any_log', 'C14_VIn_range',
+            'C14_partition_distance_ln_symmetric', 'C14_partition_distance_ln_partition_only',
+            'C14_partition_distance_ln_same', 'C14_partition_distance_ln_exactly_when', 'C14_ci2ls_ls2ci_inverse',
+            'C14_ci2ls_blocks', 'C14_diversity_coef_sign_partition_only', 'C14_gateway_coef_sign_refuted',
+            'C14_gateway_coef_sign_statement_false', 'C14_gateway_witness_values',
+            'C14_gateway_coef_sign_repaired_partition_only']
 RULE = ('every set partition of n<=5 nodes (n<=6 thorough), written with restricted-growth labels 1..K, x the relabellings '
-        '{zero-based, negative, gaps, large (2^40+), permuted block order, random injective mix} x random matrices with small '
+        '{zero-based, negative, gaps, large (2^40+), huge (adjacent int64 at +-2^62), permuted block order, random injective mix} x random matrices with small '
         'dyadic weights (undirected weighted / directed / signed, several densities, isolated nodes); pairs of partitions '
         '(all pairs n<=4, n<=5 thorough; random pairs beyond) for partition_distance; stacks of 1-4 partitions for agreement; '
         'random partitions of n<=9. non-trivial = at least two blocks and a relabelling that changes a label; '
@@ -26,12 +31,26 @@ RULE = ('every set partition of n<=5 nodes (n<=6 thorough), written with restric
 ASSUMES = ['weights are small dyadic rationals: the sums the model treats as exact are exact in binary64; quotients, sqrt and '
            'log are compared with relative tolerance 1e-9',
            'module_degree_zscore: the model yields (Koi - mean, variance) per node, the harness applies sqrt; '
-           'partition_distance: the model yields the three histograms, the harness applies log',
+           'partition_distance: the model yields the three histograms, the harness applies log exactly as '
+           'Model/PartitionReal.v (partition_distanceR) does; diversity_coef_sign: the model yields the matrices pnm of the '
+           'positive and negative part, the harness applies -sum(p log p)/log(m)',
+           'gateway_coef_sign is modelled for centrality_type = degree (the default); the betweenness variant is not modelled',
+           'the repaired form of gateway_coef_sign is compared with the source text of the function patched in memory with '
+           'proposed_fixes/gateway_coef_sign.diff (skipped when the diff does not apply)',
            'np.histogram(c, bins=max(c)) of labels 1..K is the vector of label counts (checked by the correspondence)']
-TRUSTED = ['diversity_coef_sign and gateway_coef_sign are not modelled in Coq: they are covered by the direct oracle only '
-           '(gateway_coef_sign is the known open finding gateway_coef_sign:relabel)']
+TRUSTED = ['C14_VIn_range_any_log / C14_VIn_range / C14_partition_distance_ln_* (real-valued entropies) depend on the standard-library axioms of Coq\'s real '
+           'numbers (ClassicalDedekindReals.sig_forall_dec, sig_not_dec, FunctionalExtensionality.functional_extensionality_dep, '
+           'Classical_Prop.classic through ln/exp); every other C14 theorem is closed under the global context',
+           'gateway_coef_sign as the code is: C14_gateway_coef_sign_refuted (open finding gateway_coef_sign:relabel), the model '
+           'reproduces the IndexError as None']
 
 TOL = 1e-9
+
+
+def enc_zb(x):
+    """labels beyond OCaml's native int range go to the driver in binary (ocaml/common.ml: z_of_string)"""
+    x = int(x)
+    return str(x) if abs(x) < 2 ** 60 else ('-' if x < 0 else '') + '0b' + bin(abs(x))[2:]
 
 
 def close(a, b):
@@ -63,6 +82,7 @@ def relabellings(rng, K):
         'neg-rev': [-(b + 1) for b in range(K)],
         'gaps': [3 + 7 * b * b for b in range(K)],
         'large': [2 ** 40 + 3 * b for b in range(K)],
+        'huge': [2 ** 62 + b for b in range(K)] if K % 2 else [-(2 ** 62) - 5 * b for b in range(K)],   # adjacent int64 near the ends of the range: a detour through float would merge them
         'perm': perm,
         'mix': mix,
     }
@@ -319,35 +339,35 @@ def run(ctx):
                         ctx.check(close(out, want), key0 + ':formula', 'differs from the independent partition-only formula: got %s want %s' % (tolist(out), want), case)
                     # hand the base case to the Coq model
                     if fname == 'participation_coef':
-                        model('pc %s %s 0' % (enc_mat(W, enc_q), enc_list(labels)), 'vecq', case, out)
+                        model('pc %s %s 0' % (enc_mat(W, enc_q), enc_list(labels, enc_zb)), 'vecq', case, out)
                     elif fname == 'participation_coef:in':
-                        model('pc %s %s 1' % (enc_mat(Wd, enc_q), enc_list(labels)), 'vecq', case, out)
+                        model('pc %s %s 1' % (enc_mat(Wd, enc_q), enc_list(labels, enc_zb)), 'vecq', case, out)
                     elif fname == 'participation_coef_sign':
-                        model('pcs %s %s' % (enc_mat(Ws, enc_q), enc_list(labels)), 'pairvecq', case, out)
+                        model('pcs %s %s' % (enc_mat(Ws, enc_q), enc_list(labels, enc_zb)), 'pairvecq', case, out)
                     elif fname == 'module_degree_zscore':
-                        model('mdz %s %s %d' % (enc_mat(Wd if flag else W, enc_q), enc_list(labels), flag), 'mdz', case, out)
+                        model('mdz %s %s %d' % (enc_mat(Wd if flag else W, enc_q), enc_list(labels, enc_zb), flag), 'mdz', case, out)
                     elif fname == 'modularity_und':
-                        model('mod 0 %s %s %s' % (enc_mat(W, enc_q), enc_q(gamma), enc_list(labels)), 'q', case, out)
+                        model('mod 0 %s %s %s' % (enc_mat(W, enc_q), enc_q(gamma), enc_list(labels, enc_zb)), 'q', case, out)
                     elif fname == 'modularity_dir':
-                        model('mod 1 %s %s %s' % (enc_mat(Wd, enc_q), enc_q(gamma), enc_list(labels)), 'q', case, out)
+                        model('mod 1 %s %s %s' % (enc_mat(Wd, enc_q), enc_q(gamma), enc_list(labels, enc_zb)), 'q', case, out)
                     elif fname == 'modularity_und_sign':
-                        model('mus %s %s %d' % (enc_mat(Ws, enc_q), enc_list(labels), ['sta', 'pos', 'smp', 'gja', 'neg'].index(qt)), 'q', case, out)
+                        model('mus %s %s %d' % (enc_mat(Ws, enc_q), enc_list(labels, enc_zb), ['sta', 'pos', 'smp', 'gja', 'neg'].index(qt)), 'q', case, out)
                     elif fname == 'diversity_coef_sign':
-                        model('dcs %s %s' % (enc_mat(Ws, enc_q), enc_list(labels)), 'dcs', case, out)
+                        model('dcs %s %s' % (enc_mat(Ws, enc_q), enc_list(labels, enc_zb)), 'dcs', case, out)
                 else:
                     ctx.check(ref is None or close(out, ref), key0 + ':relabel',
                               'result changes under the injective relabelling %s: %s vs %s' % (nm, tolist(out), tolist(ref)), case)
                     # a slice of the relabelled cases also goes through the model (it must canonicalise the same way)
-                    if fname == 'participation_coef' and nm in ('perm', 'mix', 'large'):
-                        model('pc %s %s 0' % (enc_mat(W, enc_q), enc_list(labels)), 'vecq', case, out)
+                    if fname == 'participation_coef' and nm in ('perm', 'mix', 'large', 'huge'):
+                        model('pc %s %s 0' % (enc_mat(W, enc_q), enc_list(labels, enc_zb)), 'vecq', case, out)
                     elif fname == 'module_degree_zscore' and nm in ('perm', 'neg'):
-                        model('mdz %s %s %d' % (enc_mat(Wd if flag else W, enc_q), enc_list(labels), flag), 'mdz', case, out)
+                        model('mdz %s %s %d' % (enc_mat(Wd if flag else W, enc_q), enc_list(labels, enc_zb), flag), 'mdz', case, out)
                     elif fname == 'modularity_und' and nm in ('zero', 'mix'):
-                        model('mod 0 %s %s %s' % (enc_mat(W, enc_q), enc_q(gamma), enc_list(labels)), 'q', case, out)
+                        model('mod 0 %s %s %s' % (enc_mat(W, enc_q), enc_q(gamma), enc_list(labels, enc_zb)), 'q', case, out)
                     elif fname == 'diversity_coef_sign' and nm in ('perm', 'neg', 'large'):
-                        model('dcs %s %s' % (enc_mat(Ws, enc_q), enc_list(labels)), 'dcs', case, out)
+                        model('dcs %s %s' % (enc_mat(Ws, enc_q), enc_list(labels, enc_zb)), 'dcs', case, out)
                     elif fname == 'modularity_und_sign' and nm in ('perm', 'gaps'):
-                        model('mus %s %s %d' % (enc_mat(Ws, enc_q), enc_list(labels), ['sta', 'pos', 'smp', 'gja', 'neg'].index(qt)), 'q', case, out)
+                        model('mus %s %s %d' % (enc_mat(Ws, enc_q), enc_list(labels, enc_zb), ['sta', 'pos', 'smp', 'gja', 'neg'].index(qt)), 'q', case, out)
         # gateway_coef_sign: known open finding (depends on label order / IndexError). The Coq model mirrors the code AS IT
         # IS (None <-> IndexError), every variant goes through it; the repaired form (proposed_fixes) is modelled as well
         # and compared with the source text patched in memory.
@@ -373,12 +393,15 @@ def run(ctx):
                 except Exception as e:
                     ctx.fail('gateway_coef_sign:raises', 'raised %r' % (e,), case); continue
                 ctx.check(np.array_equal(A0, Ag), 'gateway_coef_sign:pure', 'the matrix was modified in place', case)
-                model('gw %s %s' % (enc_mat(Wg, enc_q), enc_list(labels)), 'gw', case, None if out is None else [tolist(out[0]), tolist(out[1])])
+                # monotone renamings give the same canonical labels: in the quick tier only those that can change the block
+                # order (and one huge) go through the model
+                if ctx.thorough or nm in ('base', 'neg-rev', 'perm', 'mix', 'huge'):
+                    model('gw %s %s' % (enc_mat(Wg, enc_q), enc_list(labels, enc_zb)), 'gw', case, None if out is None else [tolist(out[0]), tolist(out[1])])
                 if nm == 'base':
                     ref = out
                 elif ref is not None and out is not None:
                     ctx.check(close(out, ref), 'gateway_coef_sign:relabel', 'result changes under the relabelling %s' % nm, case)
-                if gw_fixed is not None:
+                if gw_fixed is not None and (ctx.thorough or nm in ('base', 'neg-rev', 'perm', 'mix', 'huge')):
                     case_r = dict(case, fn='gateway_coef_sign_repaired')
                     try:
                         with np.errstate(all='ignore'):
@@ -387,12 +410,12 @@ def run(ctx):
                         ctx.fail('gateway_coef_sign_repaired:raises', 'the repaired form raised %r' % (e,), case_r); continue
                     if nm == 'base':
                         ref_r = out_r
-                        model('gwr %s %s' % (enc_mat(Wg, enc_q), enc_list(labels)), 'pairvecq', case_r, [tolist(out_r[0]), tolist(out_r[1])])
+                        model('gwr %s %s' % (enc_mat(Wg, enc_q), enc_list(labels, enc_zb)), 'pairvecq', case_r, [tolist(out_r[0]), tolist(out_r[1])])
                     else:
                         ctx.check(ref_r is None or close(out_r, ref_r), 'gateway_coef_sign_repaired:relabel',
                                   'the repaired form changes under the relabelling %s' % nm, case_r)
                         if nm in ('perm', 'mix'):
-                            model('gwr %s %s' % (enc_mat(Wg, enc_q), enc_list(labels)), 'pairvecq', case_r, [tolist(out_r[0]), tolist(out_r[1])])
+                            model('gwr %s %s' % (enc_mat(Wg, enc_q), enc_list(labels, enc_zb)), 'pairvecq', case_r, [tolist(out_r[0]), tolist(out_r[1])])
         # relabel itself and ci2ls / ls2ci
         for nm, labels in variants:
             c = np.array(labels, dtype=np.int64)
@@ -407,8 +430,8 @@ def run(ctx):
             ls2 = bct.ci2ls(np.array(back))
             ctx.check(ls2 == ls, 'ci2ls:inverse', 'ci2ls(ls2ci(ls)) differs from ls', case)
             inv = (np.unique(c, return_inverse=True)[1] + 1).tolist()
-            model('relabel %s' % enc_list(labels), 'relabel', case, inv)
-            model('ci2ls %s' % enc_list(labels), 'ci2ls', case, [[int(x) for x in b] for b in ls])
+            model('relabel %s' % enc_list(labels, enc_zb), 'relabel', case, inv)
+            model('ci2ls %s' % enc_list(labels, enc_zb), 'ci2ls', case, [[int(x) for x in b] for b in ls])
             model('ls2ci %s' % enc_mat(ls), 'ls2ci', case, [int(x) for x in back])
 
     def pdist(cx, cy, tag):
@@ -436,7 +459,7 @@ def run(ctx):
             ctx.check(-1e-12 <= vin <= 1 + 1e-12, 'partition_distance:range', 'VIn=%r outside [0,1]' % vin, case)
             ctx.check((abs(vin) < 1e-12) == same, 'partition_distance:zero-iff-same', 'VIn=%r but same partition=%s' % (vin, same), case)
             ctx.check((abs(mi - 1) < 1e-12) == same, 'partition_distance:one-iff-same', 'MIn=%r but same partition=%s' % (mi, same), case)
-        model('pd %s %s' % (enc_list(cx), enc_list(cy)), 'pd', case, (vin, mi, trivial))
+        model('pd %s %s' % (enc_list(cx, enc_zb), enc_list(cy, enc_zb)), 'pd', case, (vin, mi, trivial))
 
     def agree(cols, tag):
         n = len(cols[0])
@@ -453,7 +476,7 @@ def run(ctx):
         if len(cols) >= 2:
             D2 = call(bct.agreement, ci.copy(), 1)
             ctx.check(np.array_equal(np.asarray(D2), np.asarray(D)), 'agreement:buffsz', 'buffered evaluation differs', case)
-        model('agree %d %s' % (n, enc_mat(cols)), 'agree', case, np.asarray(D).tolist())
+        model('agree %d %s' % (n, enc_mat(cols, enc_zb)), 'agree', case, np.asarray(D).tolist())
         return D
 
     # ---- corpus
@@ -491,7 +514,7 @@ def run(ctx):
             cols2 = []
             for c in cols:
                 kk = max(c)
-                lab = relabellings(ctx.rng, kk)[ctx.rng.choice(['zero', 'neg', 'gaps', 'large', 'perm', 'mix'])]
+                lab = relabellings(ctx.rng, kk)[ctx.rng.choice(['zero', 'neg', 'gaps', 'large', 'huge', 'perm', 'mix'])]
                 cols2.append([lab[x - 1] for x in c])
             D2 = agree(cols2, 'relabelled')
             if D1 is not None and D2 is not None:
@@ -505,8 +528,8 @@ def run(ctx):
             for b in parts:
                 pdist(a, b, 'all-pairs')
                 ka, kb = max(a), max(b)
-                la = relabellings(ctx.rng, ka)[ctx.rng.choice(['zero', 'neg', 'gaps', 'large', 'perm', 'mix'])]
-                lb = relabellings(ctx.rng, kb)[ctx.rng.choice(['zero', 'neg', 'gaps', 'large', 'perm', 'mix'])]
+                la = relabellings(ctx.rng, ka)[ctx.rng.choice(['zero', 'neg', 'gaps', 'large', 'huge', 'perm', 'mix'])]
+                lb = relabellings(ctx.rng, kb)[ctx.rng.choice(['zero', 'neg', 'gaps', 'large', 'huge', 'perm', 'mix'])]
                 a2, b2 = [la[x - 1] for x in a], [lb[x - 1] for x in b]
                 if n >= 3 or ctx.thorough:
                     pdist(a2, b2, 'all-pairs-relabelled')
@@ -514,7 +537,7 @@ def run(ctx):
                         ctx.check(close(bct.partition_distance(np.array(a), np.array(b)), bct.partition_distance(np.array(a2), np.array(b2))),
                                   'partition_distance:relabel', 'result changes under relabelling', {'fn': 'partition_distance', 'cx': a, 'cy': b, 'cx2': a2, 'cy2': b2})
     # ---- random tier
-    for t in range(ctx.scale(40, 400)):
+    for t in range(ctx.scale(30, 400)):
         n = int(r.randint(6, 10))
         K = int(r.randint(1, min(n, 5) + 1))
         raw = [int(x) for x in r.randint(0, K, size=n)]
